@@ -213,6 +213,9 @@ func conformance() int {
 	return n
 }
 
+// watchDir is the directory as the server names it (event names carry it, as with the real fsnotify).
+var watchDir string
+
 // setupSym: conf.yml -> data/v0.yml
 func setupSym(dir string) {
 	os.MkdirAll(filepath.Join(dir, "data"), 0o755)
@@ -227,20 +230,31 @@ type step struct {
 	gap  time.Duration // virtual time before the operation
 }
 
-func body(steps []step, sym bool, withCore bool) func() {
+func body(steps []step, sym bool, withCore bool, symdir ...bool) func() {
 	return func() {
 		coreMode = withCore
-		dir, err := os.MkdirTemp("", "verif-c38-")
+		root, err := os.MkdirTemp("", "verif-c38-")
 		if err != nil {
 			panic(err)
 		}
-		defer os.RemoveAll(dir)
-		f := filepath.Join(dir, "conf.yml")
+		defer os.RemoveAll(root)
+		// the operations happen in dir; the server is given watchDir, which is dir itself or (symdir) a
+		// symbolic link to it: a directory component of the configured path is a link
+		dir := filepath.Join(root, "real")
+		os.Mkdir(dir, 0o755)
+		watchDir = dir
+		if len(symdir) > 0 && symdir[0] {
+			watchDir = filepath.Join(root, "link")
+			if err := os.Symlink("real", watchDir); err != nil {
+				panic(err)
+			}
+		}
+		f := filepath.Join(watchDir, "conf.yml")
 		if sym {
 			setupSym(dir)
 		} else {
-			os.WriteFile(f, []byte(contentOf(0)), 0o644)
-			stamp(f, 0)
+			os.WriteFile(filepath.Join(dir, "conf.yml"), []byte(contentOf(0)), 0o644)
+			stamp(filepath.Join(dir, "conf.yml"), 0)
 		}
 		if withCore {
 			coreBody(dir, f, steps)
@@ -276,7 +290,7 @@ func body(steps []step, sym bool, withCore bool) func() {
 			evs := perform(dir, st.kind, i+1)
 			vsched.Log("op %s", st.kind)
 			for _, e := range evs {
-				vsched.Send(fw.Events, fsnotify.Event{Name: filepath.Join(dir, e.name), Op: e.op})
+				vsched.Send(fw.Events, fsnotify.Event{Name: filepath.Join(watchDir, e.name), Op: e.op})
 			}
 		}
 		vsched.WaitIdle() // every pending event consumed, every timer fired
@@ -311,7 +325,7 @@ func coreBody(dir, f string, steps []step) {
 			if core.VerifC38Done(p) {
 				break // nobody reads the events any more
 			}
-			vsched.Select(false, vsched.S(fw.Events, fsnotify.Event{Name: filepath.Join(dir, e.name), Op: e.op}), vsched.R(core.VerifC38DoneCh(p)))
+			vsched.Select(false, vsched.S(fw.Events, fsnotify.Event{Name: filepath.Join(watchDir, e.name), Op: e.op}), vsched.R(core.VerifC38DoneCh(p)))
 		}
 	}
 	vsched.WaitIdle()
@@ -512,6 +526,52 @@ func main() {
 		}
 	}
 	recC(nil)
+	// a directory component of the configured path is a symbolic link (watcher only, and with the real Core);
+	// the real Core with a configured path that is itself a link which is re-pointed
+	addX := func(fam, desc string, steps []step, sym, withCore, symdir, thoroughOnly bool) {
+		var parts []string
+		for _, s := range steps {
+			parts = append(parts, fmt.Sprintf("%s@+%v", s.kind, s.gap))
+		}
+		sc := &vexplore.Scenario{Name: fam + "::" + strings.Join(parts, ","), Desc: desc, Body: body(steps, sym, withCore, symdir), Check: check,
+			QuickBound: 1, ThoroughBound: 1, Horizon: 20000, Quiet: true, ThoroughOnly: thoroughOnly}
+		if withCore {
+			sc.Bg, sc.BgTimers = []string{"dumper.go"}, []string{"recordcleaner/cleaner.go"}
+		} else {
+			sc.ThoroughBound, sc.Horizon = 2, 5000
+		}
+		scn = append(scn, sc)
+	}
+	var recX func(prefix []step, kinds []string, maxLen int, f func([]step))
+	recX = func(prefix []step, kinds []string, maxLen int, f func([]step)) {
+		if len(prefix) > 0 {
+			f(prefix)
+		}
+		if len(prefix) == maxLen {
+			return
+		}
+		for _, k := range kinds {
+			for _, g := range []time.Duration{5 * time.Millisecond, 1500 * time.Millisecond} {
+				if len(prefix) == 0 {
+					g = 0
+				}
+				recX(append(append([]step{}, prefix...), step{k, g}), kinds, maxLen, f)
+				if len(prefix) == 0 {
+					break
+				}
+			}
+		}
+	}
+	fileOps := []string{opWrite, opRemove, opCreate, opRename}
+	recX(nil, fileOps, 3, func(st []step) {
+		addX("symdir", "regular file reached through a symbolic link to its directory (the configured path has a linked directory component)", st, false, false, true, len(st) == 3)
+	})
+	recX(nil, fileOps, 2, func(st []step) {
+		addX("coresymdir", "the same with the real core.Core as consumer", st, false, true, true, false)
+	})
+	recX(nil, []string{opSwap, opSwapRm}, 3, func(st []step) {
+		addX("coresym", "the configured path is a symbolic link that is re-pointed; the consumer is the real core.Core", st, true, true, false, len(st) == 3)
+	})
 	extra := func(r *vcommon.Run) (int64, int64, int64, string) {
 		r.Set("fsnotify_conformance_runs", validated)
 		return 0, 0, 0, fmt.Sprintf("scenarios = all sequences of <=%d operations over %v (regular file) and of <=3 operations over {swap, swaprm, unlink, other} (watched path is a symbolic link) with virtual gaps %v before each; the event model was validated against the real fsnotify in %d runs", maxLen, opKinds, gaps, validated)
